@@ -85,6 +85,7 @@ def handleIO (line : String) : IO String := do
   | "oafdoc" :: rest => oafdocLine (" ".intercalate rest)
   | "cuefdef" :: rest => cuefdefLine (" ".intercalate rest)
   | "cuefront" :: rest => cuefrontLine (" ".intercalate rest)
+  | "cuefdoc" :: rest => cuefdocLine (" ".intercalate rest)
   | "jsfkeeps" :: rest => jsfkeepsLine (" ".intercalate rest)
   | "jsfc08" :: rest => jsfc08Line (" ".intercalate rest)
   | "jsfc12" :: rest => jsfc12Line (" ".intercalate rest)
